@@ -18,13 +18,20 @@ POL_LABELS = {"H": E.PolarizationLabel.H, "V": E.PolarizationLabel.V,
               "R": E.PolarizationLabel.R, "L": E.PolarizationLabel.L}
 
 POL1 = ("I", "X", "Y", "Z", "H", "S", "T", "SX", "RX", "RY", "RZ", "U3", "PCustom")
-FOCK1 = ("Creation", "Annihilation", "PhaseShift", "FIdentity", "Displace", "Squeeze", "FCustom", "FExpr")
+FOCK1 = ("Creation", "Annihilation", "PhaseShift", "FIdentity", "Displace", "Squeeze", "FCustom", "FExpr", "FLower", "FLowerX")
 CUST1 = ("QCustom", "QExpr")
 COMP = ("CX", "CZ", "SWAP", "CSWAP", "BS", "XFP", "XPQ", "XFF", "XID")
 
 
 # ======================================================================================
 # sampler control
+
+
+ACTION_TIMEOUT = 30.0
+
+
+class ActionTimeout(Exception):
+    pass
 
 
 class Sampler:
@@ -259,6 +266,12 @@ class World:
         if name == "FCustom":
             d = self.fock_dim(targets[0]) + int(p.get("grow", 0))
             return Op(F.Custom, operator=jnp.array(OT.fixed_unitary(d, p.get("tag", 1))))
+        if name == "FLower":      # the lowering operator through the non-renormalising Custom type
+            d = self.fock_dim(targets[0])
+            return Op(F.Custom, operator=jnp.array(OT.destroy(d)))
+        if name == "FLowerX":     # ... and through an Expression
+            from photon_weave._math.ops import annihilation_operator
+            return Op(F.Expresion, expr=("s_mult", 1.0, "a"), context={"a": lambda dims: annihilation_operator(dims[0])})
         if name == "FExpr":
             from photon_weave._math.ops import number_operator
             ctx = {"n": lambda dims: number_operator(dims[0])}
@@ -331,6 +344,14 @@ class World:
             return OT.dilation_kraus(n, 3, p.get("tag", 7))
         if name == "ident":
             return [np.eye(n, dtype=complex)]
+        if name == "weak":      # unitary that rotates |0,H> slightly into |2,V> (weak Fock-polarization entanglement)
+            eps = p.get("eps", 2e-5)
+            th = np.arcsin(np.sqrt(eps))
+            assert len(d) == 2 and d[0] >= 3 and d[1] == 2, d
+            g = np.zeros((n, n), dtype=complex)
+            i0, i1 = 0 * 2 + 0, 2 * 2 + 1
+            g[i1, i0], g[i0, i1] = 1, -1
+            return [OT.expm(th * g)]
         if name == "uni":       # a single unitary Kraus operator (entangles the addressed subsystems)
             return [OT.fixed_unitary(n, p.get("tag", 11))]
         if name == "proj":      # projective, complete: |0><0| , 1-|0><0|
@@ -376,13 +397,31 @@ class World:
         k, r = entry.split(":")
         return k, self.objs[r]
 
-    def apply(self, action, script=()):
-        """Execute one action through the public API.  Returns Result."""
+    def apply(self, action, script=(), timeout=ACTION_TIMEOUT):
+        """Execute one action through the public API.  Returns Result.
+        A call that does not return within `timeout` seconds is reported as symptom
+        exception:ActionTimeout (livelock verdict), see DESIGN C10 `terminate`."""
+        import signal
+        import threading
         self.activate()
         SAMPLER.begin(script)
         res = Result()
+        if action[0] == "op" and action[3] == "FLowerX" and timeout:
+            timeout = min(timeout, 8.0)      # known to hang (KF-C17-2): do not spend the full budget on it
+        use_alarm = timeout and threading.current_thread() is threading.main_thread()
+        if use_alarm:
+            def _on_alarm(sig, frm):
+                raise ActionTimeout(f"call did not return within {timeout} s")
+            old_handler = signal.signal(signal.SIGALRM, _on_alarm)
+            # re-armed every second after the first expiry: third-party code (e.g. JAX's compilation cache)
+            # may swallow the exception once, it must not be able to swallow the verdict
+            old_timer = signal.setitimer(signal.ITIMER_REAL, timeout, 1.0)
         try:
-            res.value = self._do(action)
+            try:
+                res.value = self._do(action)
+            finally:
+                if use_alarm:
+                    signal.setitimer(signal.ITIMER_REAL, 0)
         except BaseException as ex:  # noqa: BLE001 - every library failure is an observation
             if isinstance(ex, (KeyboardInterrupt, SystemExit, MemoryError)):
                 raise
@@ -390,6 +429,11 @@ class World:
             res.exc_type = type(ex).__name__
             res.exc_where = _frames_where(ex.__traceback__)
             res.exc_msg = str(ex)[:200]
+        finally:
+            if use_alarm:
+                signal.signal(signal.SIGALRM, old_handler)
+                if old_timer and old_timer[0] > 0:
+                    signal.setitimer(signal.ITIMER_REAL, old_timer[0])
         res.calls = SAMPLER.calls
         self.capture()
         self._ids = None
